@@ -47,6 +47,25 @@ Proof.
     rewrite (last_default _ _ s (s + 1)). rewrite E. cbn [length]. lia.
 Qed.
 
+Lemma entries_from_length s l : length (entries_from s l) = length l.
+Proof. revert s. induction l as [|x l IH]; intros s; cbn; [reflexivity|]. rewrite IH. reflexivity. Qed.
+
+Lemma skipn_skipn' {A} a b (l : list A) : skipn a (skipn b l) = skipn (b + a) l.
+Proof. revert l. induction b as [|b IH]; intros l; [reflexivity|]. destruct l as [|x l]; [rewrite !skipn_nil; reflexivity|]. cbn [skipn Nat.add]. apply IH. Qed.
+
+(* the entries with a sequence number above m form a suffix *)
+Lemma filter_entries m l : forall s,
+  filter (fun e : N * N => N.ltb m (fst e)) (entries_from s l) =
+  entries_from (s + N.of_nat (N.to_nat (m + 1 - s))) (skipn (N.to_nat (m + 1 - s)) l).
+Proof.
+  induction l as [|x l IH]; intros s; cbn [entries_from filter].
+  - rewrite skipn_nil. reflexivity.
+  - cbn [fst]. destruct (N.ltb_spec m s) as [Hlt|Hge].
+    + replace (N.to_nat (m + 1 - s)) with 0%nat by lia. cbn [skipn entries_from N.of_nat]. rewrite N.add_0_r. f_equal.
+      rewrite IH. replace (N.to_nat (m + 1 - (s + 1))) with 0%nat by lia. cbn [skipn N.of_nat]. rewrite N.add_0_r. reflexivity.
+    + rewrite IH. replace (N.to_nat (m + 1 - s)) with (S (N.to_nat (m + 1 - (s + 1)))) by lia. cbn [skipn]. f_equal. lia.
+Qed.
+
 Ltac sproj := cbn [hs_req hs_phase hs_disc hs_ready hs_closed hs_out hs_liveq hs_sent hs_recvd hs_cut hs_resp hs_ended].
 
 Ltac spl := repeat (match goal with |- _ /\ _ => split; [assumption|] end).
@@ -82,6 +101,24 @@ Section P.
   Definition ideal (i : nat) (C : list N) (cut : N) (rq : req) : list N := hist_part i C cut rq ++ live_part i C cut.
   (* the local transport keeps no history: whatever is requested, nothing is replayed *)
   Definition eff_req (persistent : bool) (rq : req) : req := if persistent then rq else NoReq.
+
+  (* with bounded retention the scan sees only the retained entries: k0 is the number of entries that had been dropped
+     from the front of the history when the subscriber's scan took its snapshot *)
+  Definition hseg (C : list N) (k0 : nat) (cut : N) : list N := firstn (N.to_nat cut - k0) (skipn k0 C).
+  Definition hist_part_k (i : nat) (C : list N) (k0 : nat) (cut : N) (rq : req) : list N :=
+    filter (mt i) (match rq with
+                   | NoReq => []
+                   | Earliest => hseg C k0 cut
+                   | ReqId r => after r (hseg C k0 cut)
+                   end).
+  Definition ideal_k (i : nat) (C : list N) (k0 : nat) (cut : N) (rq : req) : list N := hist_part_k i C k0 cut rq ++ live_part i C cut.
+
+  Lemma hseg_0 C cut : hseg C 0 cut = firstn (N.to_nat cut) C.
+  Proof. unfold hseg. rewrite Nat.sub_0_r. reflexivity. Qed.
+  Lemma hist_part_k_0 i C cut rq : hist_part_k i C 0 cut rq = hist_part i C cut rq.
+  Proof. unfold hist_part_k, hist_part. rewrite hseg_0. reflexivity. Qed.
+  Lemma ideal_k_0 i C cut rq : ideal_k i C 0 cut rq = ideal i C cut rq.
+  Proof. unfold ideal_k, ideal. rewrite hist_part_k_0. reflexivity. Qed.
 
   Lemma scan_found i cut rq l : forall s,
     scan_rest i cut rq (entries_from s l) true = filter (mt i) (firstn (N.to_nat (cut + 1 - s)) l).
@@ -146,6 +183,28 @@ Section P.
   Lemma live_part_all i C : live_part i C (N.of_nat (length C)) = [].
   Proof. unfold live_part. rewrite Nat2N.id, skipn_all. reflexivity. Qed.
 
+  Lemma scan_whole_k i cut rq C k0 :
+    rq <> NoReq ->
+    scan_rest i cut rq (entries_from (N.of_nat k0 + 1) (skipn k0 C)) (match rq with Earliest => true | _ => false end) = hist_part_k i C k0 cut rq.
+  Proof.
+    intros Hrq. unfold hist_part_k, hseg. destruct rq as [| |r]; [contradiction| |].
+    - rewrite scan_found. replace (N.to_nat (cut + 1 - (N.of_nat k0 + 1))) with (N.to_nat cut - k0)%nat by lia. reflexivity.
+    - rewrite scan_not_found. replace (N.to_nat (cut + 1 - (N.of_nat k0 + 1))) with (N.to_nat cut - k0)%nat by lia. reflexivity.
+  Qed.
+
+  Lemma hseg_grow C k0 cut u : (N.to_nat cut <= length C)%nat -> hseg (C ++ [u]) k0 cut = hseg C k0 cut.
+  Proof.
+    intros H. unfold hseg. rewrite skipn_app, firstn_app, skipn_length.
+    replace (N.to_nat cut - k0 - (length C - k0))%nat with 0%nat by lia. cbn [firstn]. rewrite app_nil_r. reflexivity.
+  Qed.
+
+  Lemma hist_part_k_grow i C k0 cut rq u : (N.to_nat cut <= length C)%nat -> hist_part_k i (C ++ [u]) k0 cut rq = hist_part_k i C k0 cut rq.
+  Proof. intros H. unfold hist_part_k. rewrite hseg_grow by assumption. reflexivity. Qed.
+
+  Lemma ideal_k_grow i C k0 cut rq u : (N.to_nat cut <= length C)%nat ->
+    ideal_k i (C ++ [u]) k0 cut rq = ideal_k i C k0 cut rq ++ (if mt i u then [u] else []).
+  Proof. intros H. unfold ideal_k. rewrite hist_part_k_grow, live_part_grow by assumption. rewrite app_assoc. reflexivity. Qed.
+
   (* ---- what the critical sections do to each subscriber ---- *)
   Definition mem_nat (j : nat) (l : list nat) : bool := existsb (Nat.eqb j) l.
   Lemma mem_nat_In j l : mem_nat j l = true <-> In j l.
@@ -201,45 +260,54 @@ Section P.
   Qed.
 
   (* ---- the invariant ---- *)
-  Definition SubOk (p : bool) (C : list N) (idx : list nat) (cd : bool) (i : nat) (s : hsub) : Prop :=
+  Definition SubOk (p : bool) (C : list N) (idx : list nat) (cd : bool) (k0 : nat) (i : nat) (s : hsub) : Prop :=
     (N.to_nat (hs_cut s) <= length C)%nat /\ hs_closed s = hs_disc s /\
-    prefix (hs_sent s) (ideal i C (hs_cut s) (eff_req p (hs_req s))) /\
+    prefix (hs_sent s) (ideal_k i C k0 (hs_cut s) (eff_req p (hs_req s))) /\
     match hs_phase s with
     | PNew | PAnnounced => hs_sent s = [] /\ hs_liveq s = [] /\ ~ In i idx /\ hs_ready s = false
     | PIndexed => In i idx /\ hs_ready s = false /\ hs_sent s = [] /\ (hs_disc s = false -> hs_liveq s = live_part i C (hs_cut s))
     | PScan snap found _ =>
         In i idx /\ hs_ready s = false /\
         (hs_disc s = false ->
-         hs_sent s ++ scan_rest i (hs_cut s) (hs_req s) snap found = hist_part i C (hs_cut s) (eff_req p (hs_req s)) /\
+         hs_sent s ++ scan_rest i (hs_cut s) (hs_req s) snap found = hist_part_k i C k0 (hs_cut s) (eff_req p (hs_req s)) /\
          hs_liveq s = live_part i C (hs_cut s))
     | PHistDone =>
         In i idx /\ hs_ready s = false /\
-        (hs_disc s = false -> hs_sent s = hist_part i C (hs_cut s) (eff_req p (hs_req s)) /\ hs_liveq s = live_part i C (hs_cut s))
+        (hs_disc s = false -> hs_sent s = hist_part_k i C k0 (hs_cut s) (eff_req p (hs_req s)) /\ hs_liveq s = live_part i C (hs_cut s))
     | PFlush rest =>
         In i idx /\ hs_ready s = false /\ hs_disc s = false /\
-        exists done, hs_liveq s = done ++ rest /\ hs_sent s = hist_part i C (hs_cut s) (eff_req p (hs_req s)) ++ done /\
+        exists done, hs_liveq s = done ++ rest /\ hs_sent s = hist_part_k i C k0 (hs_cut s) (eff_req p (hs_req s)) ++ done /\
                      hs_liveq s = live_part i C (hs_cut s)
-    | PLive _ => hs_disc s = false -> In i idx /\ hs_ready s = true /\ hs_sent s = ideal i C (hs_cut s) (eff_req p (hs_req s))
+    | PLive _ => hs_disc s = false -> In i idx /\ hs_ready s = true /\ hs_sent s = ideal_k i C k0 (hs_cut s) (eff_req p (hs_req s))
     | PLeaving | PRemoved => hs_disc s = true
     | PGone => hs_disc s = true \/ ~ In i idx
     | PRefused => In i idx -> cd = true /\ p = true
     end.
 
-  Definition Inv (st : hstate) : Prop :=
-    (h_persistent st = true -> h_db st = entries_from 1 (h_committed st) /\ h_seq st = N.of_nat (length (h_committed st))) /\
-    h_size st = 0 /\ h_lastseq st = N.of_nat (length (h_committed st)) /\ NoDup (h_index st) /\
-    forall i s, nth_error (h_subs st) i = Some s -> SubOk (h_persistent st) (h_committed st) (h_index st) (h_closed_done st) i s.
+  (* how many entries retention has dropped from the front of the stored history *)
+  Definition dropped (st : hstate) : nat := (length (h_committed st) - length (h_db st))%nat.
 
-  Lemma prefix_grow i C cut rq u l :
-    (N.to_nat cut <= length C)%nat -> prefix l (ideal i C cut rq) -> prefix l (ideal i (C ++ [u]) cut rq).
-  Proof. intros H P. rewrite ideal_grow by assumption. apply prefix_app_r. assumption. Qed.
+  Definition Inv (st : hstate) : Prop :=
+    (h_persistent st = true ->
+       h_db st = entries_from (N.of_nat (dropped st) + 1) (skipn (dropped st) (h_committed st)) /\
+       h_seq st = N.of_nat (length (h_committed st)) /\
+       (h_committed st <> [] -> (dropped st < length (h_committed st))%nat) /\
+       (h_size st = 0 -> dropped st = 0%nat)) /\
+    (h_persistent st = false -> h_db st = []) /\
+    h_lastseq st = N.of_nat (length (h_committed st)) /\ NoDup (h_index st) /\
+    forall i s, nth_error (h_subs st) i = Some s ->
+      exists k0, (k0 <= dropped st)%nat /\ SubOk (h_persistent st) (h_committed st) (h_index st) (h_closed_done st) k0 i s.
+
+  Lemma prefix_grow i C k0 cut rq u l :
+    (N.to_nat cut <= length C)%nat -> prefix l (ideal_k i C k0 cut rq) -> prefix l (ideal_k i (C ++ [u]) k0 cut rq).
+  Proof. intros H P. rewrite ideal_k_grow by assumption. apply prefix_app_r. assumption. Qed.
 
   (* a subscriber untouched by a commit that it does not have to see *)
-  Lemma subok_commit_untouched p C idx cd i s u :
-    SubOk p C idx cd i s ->
+  Lemma subok_commit_untouched p C idx cd k0 i s u :
+    SubOk p C idx cd k0 i s ->
     (mt i u = false \/ hs_disc s = true \/ ~ In i idx) ->
     (match hs_phase s with PRefused => ~ In i idx | _ => True end) ->
-    SubOk p (C ++ [u]) idx cd i s.
+    SubOk p (C ++ [u]) idx cd k0 i s.
   Proof.
     intros (Hc & Hf & Hp & Hph) Hwhy Hr. unfold SubOk. rewrite app_length. cbn [length].
     split; [lia|]. split; [assumption|]. split; [apply prefix_grow; assumption|].
@@ -247,21 +315,21 @@ Section P.
     - (* PIndexed *) destruct Hph as (A & B & D & E). repeat split; try assumption. intros Hd. rewrite live_part_grow by assumption.
       destruct Hwhy as [Hm|[Hx|Hx]]; [rewrite Hm, app_nil_r; auto|congruence|contradiction].
     - (* PScan *) destruct Hph as (A & B & E). repeat split; try assumption; destruct (E H) as [E1 E2].
-      + rewrite hist_part_grow by assumption. assumption.
+      + rewrite hist_part_k_grow by assumption. assumption.
       + rewrite live_part_grow by assumption. destruct Hwhy as [Hm|[Hx|Hx]]; [rewrite Hm, app_nil_r; auto|congruence|contradiction].
     - (* PHistDone *) destruct Hph as (A & B & E). repeat split; try assumption; destruct (E H) as [E1 E2].
-      + rewrite hist_part_grow by assumption. assumption.
+      + rewrite hist_part_k_grow by assumption. assumption.
       + rewrite live_part_grow by assumption. destruct Hwhy as [Hm|[Hx|Hx]]; [rewrite Hm, app_nil_r; auto|congruence|contradiction].
     - (* PFlush *) destruct Hph as (A & B & D & done & E1 & E2 & E3). repeat split; try assumption. exists done.
-      rewrite hist_part_grow, live_part_grow by assumption.
+      rewrite hist_part_k_grow, live_part_grow by assumption.
       destruct Hwhy as [Hm|[Hx|Hx]]; [rewrite Hm, app_nil_r; auto|congruence|contradiction].
-    - (* PLive *) intros Hd. destruct (Hph Hd) as (A & B & E). repeat split; try assumption. rewrite ideal_grow by assumption.
+    - (* PLive *) intros Hd. destruct (Hph Hd) as (A & B & E). repeat split; try assumption. rewrite ideal_k_grow by assumption.
       destruct Hwhy as [Hm|[Hx|Hx]]; [rewrite Hm, app_nil_r; auto|congruence|contradiction].
   Qed.
-  Lemma subok_commit_touched p C idx cd i s u :
-    SubOk p C idx cd i s -> mt i u = true -> In i idx -> hs_disc s = false ->
+  Lemma subok_commit_touched p C idx cd k0 i s u :
+    SubOk p C idx cd k0 i s -> mt i u = true -> In i idx -> hs_disc s = false ->
     (forall r, hs_phase s <> PFlush r) -> hs_phase s <> PRefused ->
-    SubOk p (C ++ [u]) idx cd i (fst (s_dispatch s u false)).
+    SubOk p (C ++ [u]) idx cd k0 i (fst (s_dispatch s u false)).
   Proof.
     intros (Hc & Hf & Hp & Hph) Hm Hin Hd Hnf Hnr. unfold Hub.s_dispatch. rewrite Hd. cbn [negb andb].
     destruct (hs_phase s) eqn:Ep; try (exfalso; tauto); try (exfalso; eapply Hnf; reflexivity); try congruence.
@@ -270,31 +338,56 @@ Section P.
       intros _. rewrite live_part_grow, Hm, (E Hd) by assumption. reflexivity.
     - (* PScan *) destruct Hph as (A & B & E). rewrite B. cbn [negb fst]. unfold SubOk, s_queue. sproj. rewrite Ep, app_length. cbn [length].
       split; [lia|]. split; [assumption|]. split; [apply prefix_grow; assumption|]. repeat split; try assumption; destruct (E Hd) as [E1 E2].
-      + rewrite hist_part_grow by assumption. assumption.
+      + rewrite hist_part_k_grow by assumption. assumption.
       + rewrite live_part_grow, Hm, E2 by assumption. reflexivity.
     - (* PHistDone *) destruct Hph as (A & B & E). rewrite B. cbn [negb fst]. unfold SubOk, s_queue. sproj. rewrite Ep, app_length. cbn [length].
       split; [lia|]. split; [assumption|]. split; [apply prefix_grow; assumption|]. repeat split; try assumption; destruct (E Hd) as [E1 E2].
-      + rewrite hist_part_grow by assumption. assumption.
+      + rewrite hist_part_k_grow by assumption. assumption.
       + rewrite live_part_grow, Hm, E2 by assumption. reflexivity.
     - (* PLive *) destruct (Hph Hd) as (A & B & E). rewrite B. cbn [negb].
       destruct (Nat.ltb (length (hs_out s)) cap); cbn [fst]; unfold SubOk, s_send, s_cutoff; sproj; rewrite Ep, app_length; cbn [length].
-      + split; [lia|]. split; [assumption|]. rewrite ideal_grow, Hm, E by assumption. split; [apply prefix_refl|]. intros _. auto.
+      + split; [lia|]. split; [assumption|]. rewrite ideal_k_grow, Hm, E by assumption. split; [apply prefix_refl|]. intros _. auto.
       + split; [lia|]. split; [reflexivity|]. split; [apply prefix_grow; assumption|]. discriminate.
     - (* PGone *) destruct Hph; [congruence|contradiction].
   Qed.
 
-  Lemma inv_publish st u coin st' : Inv st -> publish st u coin = (st', PubOk) -> Inv st'.
+  Lemma retain_shape size coin (C : list N) (d : nat) u :
+    (d <= length C)%nat ->
+    exists d', (d <= d')%nat /\ (d' < length (C ++ [u]))%nat /\ (size = 0 -> d' = d) /\
+      retain size coin (N.of_nat (length C) + 1) (entries_from (N.of_nat d + 1) (skipn d C) ++ [(N.of_nat (length C) + 1, u)]) =
+      entries_from (N.of_nat d' + 1) (skipn d' (C ++ [u])).
   Proof.
-    intros (Hdbq & Hz & Hls & ND & Hsubs). unfold Hub.publish.
+    intros Hd.
+    assert (E : entries_from (N.of_nat d + 1) (skipn d C) ++ [(N.of_nat (length C) + 1, u)] = entries_from (N.of_nat d + 1) (skipn d (C ++ [u]))).
+    { rewrite skipn_app. replace (d - length C)%nat with 0%nat by lia. cbn [skipn]. rewrite entries_from_app, skipn_length. cbn [entries_from].
+      do 3 f_equal. lia. }
+    rewrite E. unfold retain. destruct (N.eqb size 0 || negb coin || N.leb (N.of_nat (length C) + 1) size) eqn:Ec.
+    - exists d. rewrite app_length. cbn [length]. repeat split; auto; lia.
+    - apply orb_false_iff in Ec. destruct Ec as [Ec Ec2]. apply orb_false_iff in Ec. destruct Ec as [Ec0 _].
+      apply N.eqb_neq in Ec0. apply N.leb_gt in Ec2.
+      rewrite filter_entries, skipn_skipn'.
+      set (dl := N.to_nat (N.of_nat (length C) + 1 - size + 1 - (N.of_nat d + 1))).
+      exists (d + dl)%nat. rewrite app_length. cbn [length]. split; [lia|]. split; [subst dl; lia|]. split; [intros; contradiction|].
+      f_equal. lia.
+  Qed.
+
+  Lemma dropped_shape (C : list N) (db : list (N * N)) d' s :
+    (d' <= length C)%nat -> db = entries_from s (skipn d' C) -> (length C - length db)%nat = d'.
+  Proof. intros H ->. rewrite entries_from_length, skipn_length. lia. Qed.
+
+  Lemma inv_publish st u coin st' : Inv st -> publish st u coin = (st', PubOk) -> Inv st' /\ (dropped st <= dropped st')%nat.
+  Proof.
+    intros (Hdbq & Hloc & Hls & ND & Hsubs). unfold Hub.publish.
     destruct (h_closed_done st && h_persistent st) eqn:Ecp; [discriminate|].
     destruct (Nat.eqb (h_close st) 2); [discriminate|].
     destruct (existsb _ (h_index st)) eqn:Efl; [discriminate|].
     intros E. inversion E; subst; clear E.
     assert (Hsub' : forall j s', nth_error (fan_out (h_subs st) (h_index st) u) j = Some s' ->
-                    SubOk (h_persistent st) (h_committed st ++ [u]) (h_index st) (h_closed_done st) j s').
+                    exists k0, (k0 <= dropped st)%nat /\
+                    SubOk (h_persistent st) (h_committed st ++ [u]) (h_index st) (h_closed_done st) k0 j s').
     { intros j s' Hj. rewrite (fan_out_nth _ _ ND) in Hj.
       destruct (nth_error (h_subs st) j) as [s|] eqn:Ej; [|discriminate]. inversion Hj; subst; clear Hj.
-      pose proof (Hsubs _ _ Ej) as Hok.
+      destruct (Hsubs _ _ Ej) as (k0 & Hk0 & Hok). exists k0. split; [assumption|].
       assert (Hrf : match hs_phase s with PRefused => ~ In j (h_index st) | _ => True end).
       { destruct (hs_phase s) eqn:Ep; try exact I. destruct Hok as (_ & _ & _ & Hr). rewrite Ep in Hr. intros Hin.
         destruct (Hr Hin) as [R1 R2]. rewrite R1, R2 in Ecp. discriminate. }
@@ -310,11 +403,43 @@ Section P.
             -- intros Ep. rewrite Ep in Hrf. contradiction.
         + apply subok_commit_untouched; auto.
       - apply subok_commit_untouched; auto. right. right. intros Hin. apply mem_nat_In in Hin. congruence. }
-    destruct (h_persistent st) eqn:Hp; unfold Inv, set_subs; cbn.
-    - destruct (Hdbq eq_refl) as [Hdb Hseq]. rewrite Hz. unfold retain. cbn [N.eqb orb].
-      split; [intros _; split; [rewrite entries_from_app, Hdb; cbn [entries_from]; rewrite Hseq; do 3 f_equal; lia|rewrite app_length, Hseq; cbn [length]; lia]|].
-      split; [reflexivity|]. split; [rewrite app_length, Hseq; cbn [length]; lia|]. split; [assumption|]. exact Hsub'.
-    - split; [discriminate|]. split; [assumption|]. split; [rewrite app_length, Hls; cbn [length]; lia|]. split; [assumption|]. exact Hsub'.
+    destruct (h_persistent st) eqn:Hp.
+    - destruct (Hdbq eq_refl) as (Hdb & Hseq & Hne & Hz0).
+      assert (Hd : (dropped st <= length (h_committed st))%nat) by (unfold dropped; lia).
+      destruct (retain_shape (h_size st) coin (h_committed st) (dropped st) u Hd) as (d' & Hd1 & Hd2 & Hd3 & Hr).
+      match goal with |- Inv ?x /\ _ => set (st2 := x) end.
+      assert (Hc2 : h_committed st2 = h_committed st ++ [u]) by reflexivity.
+      assert (Hdb2 : h_db st2 = retain (h_size st) coin (h_seq st + 1) (h_db st ++ [(h_seq st + 1, u)])) by reflexivity.
+      assert (Hp2 : h_persistent st2 = true) by reflexivity.
+      assert (Hs2 : h_seq st2 = h_seq st + 1) by reflexivity.
+      assert (Hl2 : h_lastseq st2 = h_seq st + 1) by reflexivity.
+      assert (Hi2 : h_index st2 = h_index st) by reflexivity.
+      assert (Hz2 : h_size st2 = h_size st) by reflexivity.
+      assert (Hcd2 : h_closed_done st2 = h_closed_done st) by reflexivity.
+      assert (Hsb2 : h_subs st2 = fan_out (h_subs st) (h_index st) u) by reflexivity.
+      clearbody st2.
+      assert (Hdr : dropped st2 = d').
+      { unfold dropped. rewrite Hc2, Hdb2, Hseq, Hdb, Hr. eapply dropped_shape; [|reflexivity]. lia. }
+      split; [|rewrite Hdr; assumption].
+      unfold Inv. rewrite Hdr, Hp2, Hc2, Hdb2, Hs2, Hl2, Hi2, Hz2, Hcd2, Hsb2.
+      split; [intros _; split; [rewrite Hseq, Hdb; exact Hr|split; [rewrite app_length, Hseq; cbn [length]; lia|split; [intros _; assumption|intros Hz; rewrite (Hd3 Hz); auto]]]|].
+      split; [discriminate|]. split; [rewrite app_length, Hseq; cbn [length]; lia|]. split; [assumption|].
+      intros j s' Hj. destruct (Hsub' j s' Hj) as (k0 & Hk0 & Hok). exists k0. split; [lia|exact Hok].
+    - pose proof (Hloc eq_refl) as Hdb0.
+      match goal with |- Inv ?x /\ _ => set (st2 := x) end.
+      assert (Hc2 : h_committed st2 = h_committed st ++ [u]) by reflexivity.
+      assert (Hdb2 : h_db st2 = h_db st) by reflexivity.
+      assert (Hp2 : h_persistent st2 = false) by reflexivity.
+      assert (Hl2 : h_lastseq st2 = h_lastseq st + 1) by reflexivity.
+      assert (Hi2 : h_index st2 = h_index st) by reflexivity.
+      assert (Hcd2 : h_closed_done st2 = h_closed_done st) by reflexivity.
+      assert (Hsb2 : h_subs st2 = fan_out (h_subs st) (h_index st) u) by reflexivity.
+      clearbody st2.
+      assert (Hdr : (dropped st <= dropped st2)%nat) by (unfold dropped; rewrite Hc2, Hdb2, app_length; cbn [length]; lia).
+      split; [|exact Hdr].
+      unfold Inv. rewrite Hp2, Hc2, Hdb2, Hl2, Hi2, Hcd2, Hsb2.
+      split; [discriminate|]. split; [intros _; assumption|]. split; [rewrite app_length, Hls; cbn [length]; lia|]. split; [assumption|].
+      intros j s' Hj. destruct (Hsub' j s' Hj) as (k0 & Hk0 & Hok). exists k0. split; [lia|exact Hok].
   Qed.
 
   (* ---- frames ---- *)
@@ -330,61 +455,65 @@ Section P.
     intros H. unfold Hub.add_event. destruct (negb tracking); [intros E; inversion E; subst; assumption|].
     destruct (h_closed st); [intros E; inversion E; subst; assumption|].
     destruct (publish st (ev_id i a) c) as [st' []] eqn:Ep; intros E; inversion E; subst; try assumption.
-    apply inv_log_event. eapply inv_publish; eassumption.
+    apply inv_log_event. eapply (proj1 (inv_publish _ _ _ _ H Ep)).
   Qed.
 
-  Lemma subok_idx p C idx idx' cd j s : (In j idx <-> In j idx') -> SubOk p C idx cd j s -> SubOk p C idx' cd j s.
+  Lemma subok_idx p C idx idx' cd k0 j s : (In j idx <-> In j idx') -> SubOk p C idx cd k0 j s -> SubOk p C idx' cd k0 j s.
   Proof.
     intros Hiff (A & B & D & E). split; [assumption|]. split; [assumption|]. split; [assumption|].
     destruct (hs_phase s); tauto.
   Qed.
 
-  Lemma subok_cd p C idx j s : SubOk p C idx false j s -> SubOk p C idx true j s.
+  Lemma subok_cd p C idx k0 j s : SubOk p C idx false k0 j s -> SubOk p C idx true k0 j s.
   Proof.
     intros (A & B & D & E). split; [assumption|]. split; [assumption|]. split; [assumption|].
     destruct (hs_phase s); try assumption. intros Hin. destruct (E Hin) as [X _]. discriminate.
   Qed.
 
   (* replace subscriber i and the index *)
-  Lemma inv_replace st i s' idx' :
-    Inv st -> NoDup idx' -> (forall j, j <> i -> (In j (h_index st) <-> In j idx')) ->
-    SubOk (h_persistent st) (h_committed st) idx' (h_closed_done st) i s' ->
+  Lemma inv_replace st i s' idx' k0 :
+    Inv st -> NoDup idx' -> (forall j, j <> i -> (In j (h_index st) <-> In j idx')) -> (k0 <= dropped st)%nat ->
+    SubOk (h_persistent st) (h_committed st) idx' (h_closed_done st) k0 i s' ->
     Inv (set_sub (set_index st idx') i s').
   Proof.
-    intros (Hdbq & Hz & Hls & ND & Hsubs) ND' Hiff Hi.
-    unfold Inv, set_sub, set_subs, set_index. cbn.
+    intros (Hdbq & Hloc & Hls & ND & Hsubs) ND' Hiff Hk Hi.
+    unfold Inv, set_sub, set_subs, set_index. cbn [h_persistent h_db h_committed h_seq h_lastseq h_index h_subs h_size h_close h_closed_done].
+    change (dropped {| h_persistent := h_persistent st; h_close := h_close st; h_db := h_db st; h_committed := h_committed st; h_seq := h_seq st;
+              h_lastseq := h_lastseq st; h_index := idx'; h_subs := upd_nth i s' (h_subs st); h_acked := h_acked st; h_events := h_events st;
+              h_gauge := h_gauge st; h_subs_total := h_subs_total st; h_updates_total := h_updates_total st; h_size := h_size st |}) with (dropped st).
     repeat (split; [assumption|]).
-    intros j sj Hj. apply nth_upd_cases in Hj. destruct Hj as [(<- & -> & _)|(Hne & Hj)]; [exact Hi|].
-    eapply subok_idx; [apply Hiff; congruence|]. apply Hsubs. assumption.
+    intros j sj Hj. apply nth_upd_cases in Hj. destruct Hj as [(<- & -> & _)|(Hne & Hj)]; [exists k0; auto|].
+    destruct (Hsubs _ _ Hj) as (k1 & Hk1 & Hok). exists k1. split; [assumption|]. eapply subok_idx; [apply Hiff; congruence|]. assumption.
   Qed.
 
-  Lemma inv_set_sub st i s' : Inv st -> SubOk (h_persistent st) (h_committed st) (h_index st) (h_closed_done st) i s' -> Inv (set_sub st i s').
+  Lemma inv_set_sub st i s' k0 : Inv st -> (k0 <= dropped st)%nat ->
+    SubOk (h_persistent st) (h_committed st) (h_index st) (h_closed_done st) k0 i s' -> Inv (set_sub st i s').
   Proof.
-    intros H Hi. pose proof (inv_replace st i s' (h_index st) H) as R.
-    destruct H as (_ & _ & _ & ND & _). specialize (R ND (fun j _ => iff_refl _) Hi). exact R.
+    intros H Hk Hi. pose proof (inv_replace st i s' (h_index st) k0 H) as R.
+    destruct H as (_ & _ & _ & ND & _). specialize (R ND (fun j _ => iff_refl _) Hk Hi). exact R.
   Qed.
 
-  Lemma inv_set_phase st i s p :
-    Inv st -> nth_error (h_subs st) i = Some s ->
-    SubOk (h_persistent st) (h_committed st) (h_index st) (h_closed_done st) i (with_phase s p) -> Inv (set_phase st i p).
-  Proof. intros H E Hi. unfold set_phase. rewrite E. apply inv_set_sub; assumption. Qed.
+  Lemma inv_set_phase st i s p k0 :
+    Inv st -> nth_error (h_subs st) i = Some s -> (k0 <= dropped st)%nat ->
+    SubOk (h_persistent st) (h_committed st) (h_index st) (h_closed_done st) k0 i (with_phase s p) -> Inv (set_phase st i p).
+  Proof. intros H E Hk Hi. unfold set_phase. rewrite E. eapply inv_set_sub; eassumption. Qed.
 
   (* after an event dispatched on behalf of subscriber i, i is where it was *)
   Lemma after_event st i s a c st1 :
     Inv st -> nth_error (h_subs st) i = Some s -> add_event st i a c = Some st1 ->
     Inv st1 /\ h_index st1 = h_index st /\ h_closed_done st1 = h_closed_done st /\ h_persistent st1 = h_persistent st /\
-    exists s1, nth_error (h_subs st1) i = Some s1 /\ hs_phase s1 = hs_phase s /\
-               SubOk (h_persistent st1) (h_committed st1) (h_index st1) (h_closed_done st1) i s1.
+    exists s1 k1, nth_error (h_subs st1) i = Some s1 /\ hs_phase s1 = hs_phase s /\ (k1 <= dropped st1)%nat /\
+               SubOk (h_persistent st1) (h_committed st1) (h_index st1) (h_closed_done st1) k1 i s1.
   Proof.
     intros H E Ea. pose proof (inv_add_event _ _ _ _ _ H Ea) as H1.
     destruct (add_event_frame mt cap tracking _ _ _ _ _ Ea) as (Ph & _ & _ & _ & Hc & Hi & _ & Hper).
     split; [assumption|]. split; [assumption|]. split; [unfold h_closed_done; rewrite Hc; reflexivity|]. split; [assumption|].
-    destruct (phases_nth _ _ _ _ Ph E) as (s1 & E1 & P1). exists s1. split; [assumption|]. split; [assumption|].
-    destruct H1 as (_ & _ & _ & _ & Hs). apply Hs. assumption.
+    destruct (phases_nth _ _ _ _ Ph E) as (s1 & E1 & P1).
+    destruct H1 as (_ & _ & _ & _ & Hs). destruct (Hs _ _ E1) as (k1 & Hk1 & Hok). exists s1, k1. auto.
   Qed.
 
-  Lemma subok_cutoff p C idx cd i s :
-    SubOk p C idx cd i s -> (forall r, hs_phase s <> PFlush r) -> SubOk p C idx cd i (s_cutoff s).
+  Lemma subok_cutoff p C idx cd k0 i s :
+    SubOk p C idx cd k0 i s -> (forall r, hs_phase s <> PFlush r) -> SubOk p C idx cd k0 i (s_cutoff s).
   Proof.
     intros (A & B & D & E) Hnf. unfold SubOk, s_cutoff. sproj.
     split; [assumption|]. split; [reflexivity|]. split; [assumption|].
@@ -396,29 +525,29 @@ Section P.
     - discriminate.
   Qed.
 
-  Lemma subok_disconnect p C idx cd i s :
-    SubOk p C idx cd i s -> (forall r, hs_phase s <> PFlush r) -> SubOk p C idx cd i (s_disconnect s).
+  Lemma subok_disconnect p C idx cd k0 i s :
+    SubOk p C idx cd k0 i s -> (forall r, hs_phase s <> PFlush r) -> SubOk p C idx cd k0 i (s_disconnect s).
   Proof. intros H Hnf. unfold s_disconnect. destruct (hs_disc s); [assumption|]. apply subok_cutoff; assumption. Qed.
   Lemma inv_sub_step st i s c st' :
     Inv st -> nth_error (h_subs st) i = Some s -> sub_step st i s c = Some st' -> Inv st'.
   Proof.
-    intros H E. pose proof H as (Hdbq & Hz & Hls & ND & Hsubs). pose proof (Hsubs _ _ E) as Hok.
+    intros H E. pose proof H as (Hdbq & Hloc & Hls & ND & Hsubs). destruct (Hsubs _ _ E) as (k0 & Hk0 & Hok).
     unfold Hub.sub_step. destruct (hs_phase s) eqn:Ep.
     - (* PNew *)
       destruct (add_event st i true c) as [st1|] eqn:Ea; [|discriminate]. cbn [option_map]. intros E'; inversion E'; subst; clear E'.
-      destruct (after_event _ _ _ _ _ _ H E Ea) as (H1 & Hi & Hcd & Hper & s1 & E1 & P1 & Ok1).
-      eapply inv_set_phase; [assumption|eassumption|].
+      destruct (after_event _ _ _ _ _ _ H E Ea) as (H1 & Hi & Hcd & Hper & s1 & k1 & E1 & P1 & Hk1 & Ok1).
+      eapply (inv_set_phase _ _ _ _ k1); [assumption|eassumption|assumption|].
       destruct Ok1 as (A & B & D & F). rewrite P1, Ep in F. unfold SubOk, with_phase. sproj. auto.
     - (* PAnnounced *)
       destruct (h_closed st).
       + destruct (add_event st i false c) as [st1|] eqn:Ea; [|discriminate]. cbn [option_map]. intros E'; inversion E'; subst; clear E'.
-        destruct (after_event _ _ _ _ _ _ H E Ea) as (H1 & Hi & Hcd & Hper & s1 & E1 & P1 & Ok1).
-        eapply inv_set_phase; [assumption|eassumption|].
+        destruct (after_event _ _ _ _ _ _ H E Ea) as (H1 & Hi & Hcd & Hper & s1 & k1 & E1 & P1 & Hk1 & Ok1).
+        eapply (inv_set_phase _ _ _ _ k1); [assumption|eassumption|assumption|].
         destruct Ok1 as (A & B & D & F). rewrite P1, Ep in F. unfold SubOk, with_phase. sproj.
         spl. intros Hin. exfalso. tauto.
       + intros E'; inversion E'; subst; clear E'.
         destruct Hok as (A & B & D & F). rewrite Ep in F. destruct F as (F1 & F2 & F3 & F4).
-        apply inv_replace; [assumption|apply NoDup_app_one; assumption| |].
+        apply (inv_replace _ _ _ _ k0); [assumption|apply NoDup_app_one; assumption| |assumption|].
         * intros j Hj. rewrite in_app_iff. cbn [In]. split; [auto|]. intros [?|[?|[]]]; [assumption|congruence].
         * unfold SubOk. sproj. rewrite Hls, Nat2N.id. split; [lia|]. split; [assumption|].
           rewrite F1. split; [apply prefix_nil|]. split; [apply in_or_app; right; left; reflexivity|].
@@ -426,111 +555,113 @@ Section P.
     - (* PIndexed *)
       destruct Hok as (A & B & D & F). rewrite Ep in F. destruct F as (F1 & F2 & F3 & F4).
       destruct (h_persistent st) eqn:Hp.
-      + destruct (Hdbq eq_refl) as [Hdb Hseq]. cbn [eff_req] in D. destruct (hs_req s) eqn:Er.
-        * intros E'; inversion E'; subst; clear E'. apply inv_set_sub; [assumption|].
+      + destruct (Hdbq eq_refl) as (Hdb & Hseq & Hne & Hz0). cbn [eff_req] in D. destruct (hs_req s) eqn:Er.
+        * intros E'; inversion E'; subst; clear E'. apply (inv_set_sub _ _ _ k0); [assumption|assumption|].
           unfold SubOk, with_phase. sproj. rewrite ?Er, ?Hp. cbn [eff_req]. spl. intros Hd. split; [rewrite F3; reflexivity|auto].
         * destruct (h_closed_done st) eqn:Ecd.
           -- destruct (add_event st i false c) as [st1|] eqn:Ea; [|discriminate]. cbn [option_map]. intros E'; inversion E'; subst; clear E'.
-             destruct (after_event _ _ _ _ _ _ H E Ea) as (H1 & Hi & Hcd & Hper & s1 & E1 & P1 & Ok1).
-             eapply inv_set_phase; [assumption|eassumption|].
+             destruct (after_event _ _ _ _ _ _ H E Ea) as (H1 & Hi & Hcd & Hper & s1 & k1 & E1 & P1 & Hk1 & Ok1).
+             eapply (inv_set_phase _ _ _ _ k1); [assumption|eassumption|assumption|].
              destruct Ok1 as (A1 & B1 & D1 & G). unfold SubOk, with_phase. sproj.
              spl. intros _. rewrite Hcd, Hper, Hp. auto.
-          -- intros E'; inversion E'; subst; clear E'. apply inv_set_sub; [assumption|].
-             unfold SubOk, with_phase. sproj. rewrite ?Er, ?Hp. cbn [eff_req]. spl. intros Hd. rewrite F3, Hdb. cbn [app].
-             split; [apply (scan_whole i (hs_cut s) Earliest); discriminate|auto].
+          -- intros E'; inversion E'; subst; clear E'. apply (inv_set_sub _ _ _ (dropped st)); [assumption|lia|].
+             unfold SubOk, with_phase. sproj. rewrite ?Er, ?Hp. cbn [eff_req]. split; [assumption|]. split; [assumption|].
+             split; [rewrite F3; apply prefix_nil|]. spl. intros Hd. rewrite F3, Hdb. cbn [app].
+             split; [apply (scan_whole_k i (hs_cut s) Earliest); discriminate|auto].
         * destruct (h_closed_done st) eqn:Ecd.
           -- destruct (add_event st i false c) as [st1|] eqn:Ea; [|discriminate]. cbn [option_map]. intros E'; inversion E'; subst; clear E'.
-             destruct (after_event _ _ _ _ _ _ H E Ea) as (H1 & Hi & Hcd & Hper & s1 & E1 & P1 & Ok1).
-             eapply inv_set_phase; [assumption|eassumption|].
+             destruct (after_event _ _ _ _ _ _ H E Ea) as (H1 & Hi & Hcd & Hper & s1 & k1 & E1 & P1 & Hk1 & Ok1).
+             eapply (inv_set_phase _ _ _ _ k1); [assumption|eassumption|assumption|].
              destruct Ok1 as (A1 & B1 & D1 & G). unfold SubOk, with_phase. sproj.
              spl. intros _. rewrite Hcd, Hper, Hp. auto.
-          -- intros E'; inversion E'; subst; clear E'. apply inv_set_sub; [assumption|].
-             unfold SubOk, with_phase. sproj. rewrite ?Er, ?Hp. cbn [eff_req]. spl. intros Hd. rewrite F3, Hdb. cbn [app].
-             split; [apply (scan_whole i (hs_cut s) (ReqId id)); discriminate|auto].
-      + cbn [eff_req] in D. destruct (hs_req s) eqn:Er; intros E'; inversion E'; subst; clear E'; (apply inv_set_sub; [assumption|]);
+          -- intros E'; inversion E'; subst; clear E'. apply (inv_set_sub _ _ _ (dropped st)); [assumption|lia|].
+             unfold SubOk, with_phase. sproj. rewrite ?Er, ?Hp. cbn [eff_req]. split; [assumption|]. split; [assumption|].
+             split; [rewrite F3; apply prefix_nil|]. spl. intros Hd. rewrite F3, Hdb. cbn [app].
+             split; [apply (scan_whole_k i (hs_cut s) (ReqId id)); discriminate|auto].
+      + cbn [eff_req] in D. destruct (hs_req s) eqn:Er; intros E'; inversion E'; subst; clear E'; (apply (inv_set_sub _ _ _ k0); [assumption|assumption|]);
           unfold SubOk, with_phase; sproj; rewrite ?Er, ?Hp; cbn [eff_req]; spl; intros Hd; (split; [rewrite F3; reflexivity|auto]).
     - (* PScan *)
       destruct Hok as (A & B & D & F). rewrite Ep in F. destruct F as (F1 & F2 & F3).
       destruct snap as [|[sq id] snap'].
-      + intros E'; inversion E'; subst; clear E'. apply inv_set_sub; [assumption|].
+      + intros E'; inversion E'; subst; clear E'. apply (inv_set_sub _ _ _ k0); [assumption|assumption|].
         unfold SubOk, with_phase. sproj. spl. intros Hd. destruct (F3 Hd) as [G1 G2].
         cbn [scan_rest] in G1. rewrite app_nil_r in G1. auto.
       + destruct found; cbn [negb].
         * destruct (N.ltb (hs_cut s) sq) eqn:Ecut.
-          -- intros E'; inversion E'; subst; clear E'. apply inv_set_sub; [assumption|].
+          -- intros E'; inversion E'; subst; clear E'. apply (inv_set_sub _ _ _ k0); [assumption|assumption|].
              unfold SubOk, with_phase. sproj. spl. intros Hd. destruct (F3 Hd) as [G1 G2].
              cbn [scan_rest negb] in G1. rewrite Ecut in G1. auto.
           -- destruct (mt i id) eqn:Em.
              ++ unfold Hub.s_dispatch. destruct (hs_disc s) eqn:Ed.
-                ** intros E'; inversion E'; subst; clear E'. apply inv_set_sub; [assumption|].
+                ** intros E'; inversion E'; subst; clear E'. apply (inv_set_sub _ _ _ k0); [assumption|assumption|].
                    unfold SubOk, with_phase. sproj. rewrite Ed. spl. discriminate.
                 ** cbn [negb andb]. destruct (Nat.ltb (length (hs_out s)) cap).
-                   --- intros E'; inversion E'; subst; clear E'. apply inv_set_sub; [assumption|].
+                   --- intros E'; inversion E'; subst; clear E'. apply (inv_set_sub _ _ _ k0); [assumption|assumption|].
                        destruct (F3 eq_refl) as [G1 G2]. cbn [scan_rest negb] in G1. rewrite Ecut, Em in G1.
                        unfold SubOk, with_phase, s_send. sproj. rewrite ?Ed. split; [assumption|]. split; [assumption|].
-                       split; [eexists; unfold ideal; rewrite <- G1, <- !app_assoc; reflexivity|].
+                       split; [eexists; unfold ideal_k; rewrite <- G1, <- !app_assoc; reflexivity|].
                        spl. intros _. rewrite <- app_assoc. auto.
-                   --- intros E'; inversion E'; subst; clear E'. apply inv_set_sub; [assumption|].
+                   --- intros E'; inversion E'; subst; clear E'. apply (inv_set_sub _ _ _ k0); [assumption|assumption|].
                        unfold SubOk, with_phase, s_cutoff. sproj. split; [assumption|]. split; [reflexivity|].
                        split; [assumption|]. spl. discriminate.
-             ++ intros E'; inversion E'; subst; clear E'. apply inv_set_sub; [assumption|].
+             ++ intros E'; inversion E'; subst; clear E'. apply (inv_set_sub _ _ _ k0); [assumption|assumption|].
                 unfold SubOk, with_phase. sproj. spl. intros Hd. destruct (F3 Hd) as [G1 G2].
                 cbn [scan_rest negb] in G1. rewrite Ecut, Em in G1. auto.
-        * intros E'; inversion E'; subst; clear E'. apply inv_set_sub; [assumption|].
+        * intros E'; inversion E'; subst; clear E'. apply (inv_set_sub _ _ _ k0); [assumption|assumption|].
           unfold SubOk, with_phase. sproj. spl. intros Hd. destruct (F3 Hd) as [G1 G2].
           cbn [scan_rest negb] in G1. auto.
     - (* PHistDone *)
       destruct Hok as (A & B & D & F). rewrite Ep in F. destruct F as (F1 & F2 & F3).
       destruct (hs_disc s) eqn:Ed; intros E'; inversion E'; subst; clear E'.
-      + apply inv_metrics. apply inv_set_sub; [assumption|].
+      + apply inv_metrics. apply (inv_set_sub _ _ _ k0); [assumption|assumption|].
         unfold SubOk, with_phase. sproj. rewrite Ed. spl. discriminate.
-      + apply inv_set_sub; [assumption|]. destruct (F3 eq_refl) as [G1 G2].
+      + apply (inv_set_sub _ _ _ k0); [assumption|assumption|]. destruct (F3 eq_refl) as [G1 G2].
         unfold SubOk, with_phase. sproj. rewrite Ed. spl. split; [reflexivity|]. exists []. rewrite app_nil_r. auto.
     - (* PFlush *)
       destruct Hok as (A & B & D & F). rewrite Ep in F. destruct F as (F1 & F2 & F3 & done & G1 & G2 & G3).
       destruct rest as [|u rest'].
-      + intros E'; inversion E'; subst; clear E'. apply inv_metrics. apply inv_set_sub; [assumption|].
+      + intros E'; inversion E'; subst; clear E'. apply inv_metrics. apply (inv_set_sub _ _ _ k0); [assumption|assumption|].
         rewrite app_nil_r in G1. unfold SubOk, with_phase, s_set_ready. sproj. spl. intros _.
-        split; [assumption|]. split; [reflexivity|]. unfold ideal. rewrite G2, <- G3, G1. reflexivity.
+        split; [assumption|]. split; [reflexivity|]. unfold ideal_k. rewrite G2, <- G3, G1. reflexivity.
       + destruct (Nat.ltb (length (hs_out s)) cap); intros E'; inversion E'; subst; clear E'.
-        * apply inv_set_sub; [assumption|]. unfold SubOk, with_phase, s_send. sproj. split; [assumption|]. split; [assumption|].
-          split; [exists rest'; unfold ideal; rewrite G2, <- G3, G1, <- !app_assoc; reflexivity|].
+        * apply (inv_set_sub _ _ _ k0); [assumption|assumption|]. unfold SubOk, with_phase, s_send. sproj. split; [assumption|]. split; [assumption|].
+          split; [exists rest'; unfold ideal_k; rewrite G2, <- G3, G1, <- !app_assoc; reflexivity|].
           spl. exists (done ++ [u]). rewrite G2, <- !app_assoc. cbn [app]. auto.
-        * apply inv_metrics. apply inv_set_sub; [assumption|].
+        * apply inv_metrics. apply (inv_set_sub _ _ _ k0); [assumption|assumption|].
           unfold SubOk, with_phase, s_cutoff. sproj. split; [assumption|]. split; [reflexivity|]. split; [assumption|]. discriminate.
     - discriminate.
     - (* PLeaving *)
       destruct Hok as (A & B & D & F). rewrite Ep in F.
       destruct (h_closed st); intros E'; inversion E'; subst; clear E'.
-      + apply inv_set_sub; [assumption|]. unfold SubOk, with_phase. sproj. auto.
-      + apply inv_replace; [assumption|apply NoDup_filter; assumption| |].
+      + apply (inv_set_sub _ _ _ k0); [assumption|assumption|]. unfold SubOk, with_phase. sproj. auto.
+      + apply (inv_replace _ _ _ _ k0); [assumption|apply NoDup_filter; assumption| |assumption|].
         * intros j Hj. rewrite filter_In. apply Nat.eqb_neq in Hj. rewrite Hj. cbn [negb]. tauto.
         * unfold SubOk, with_phase. sproj. auto.
     - (* PRemoved *)
       destruct (add_event st i false c) as [st1|] eqn:Ea; [|discriminate]. cbn [option_map]. intros E'; inversion E'; subst; clear E'.
-      destruct (after_event _ _ _ _ _ _ H E Ea) as (H1 & Hi & Hcd & Hper & s1 & E1 & P1 & Ok1).
-      apply inv_metrics. eapply inv_set_phase; [assumption|eassumption|].
+      destruct (after_event _ _ _ _ _ _ H E Ea) as (H1 & Hi & Hcd & Hper & s1 & k1 & E1 & P1 & Hk1 & Ok1).
+      apply inv_metrics. eapply (inv_set_phase _ _ _ _ k1); [assumption|eassumption|assumption|].
       destruct Ok1 as (A & B & D & F). rewrite P1, Ep in F. unfold SubOk, with_phase. sproj. auto.
     - discriminate.
     - discriminate.
   Qed.
   Lemma inv_recv st i s st' : Inv st -> nth_error (h_subs st) i = Some s -> recv_step st i s = Some st' -> Inv st'.
   Proof.
-    intros H E. pose proof H as (Hdbq & Hz & Hls & ND & Hsubs). pose proof (Hsubs _ _ E) as (A & B & D & F).
+    intros H E. pose proof H as (Hdbq & Hloc & Hls & ND & Hsubs). destruct (Hsubs _ _ E) as (k0 & Hk0 & A & B & D & F).
     unfold recv_step. destruct (hs_phase s) eqn:Ep; try discriminate.
     destruct (hs_out s) as [|u o].
     - destruct (hs_closed s) eqn:Ec; [|discriminate]. intros E'; inversion E'; subst; clear E'.
-      apply inv_set_sub; [assumption|]. unfold SubOk, with_phase. sproj. spl. auto.
-    - intros E'; inversion E'; subst; clear E'. apply inv_set_sub; [assumption|].
+      apply (inv_set_sub _ _ _ k0); [assumption|assumption|]. unfold SubOk, with_phase. sproj. spl. auto.
+    - intros E'; inversion E'; subst; clear E'. apply (inv_set_sub _ _ _ k0); [assumption|assumption|].
       unfold SubOk. sproj. auto.
   Qed.
 
   Lemma inv_leave st i s st' : Inv st -> nth_error (h_subs st) i = Some s -> leave_step st i s = Some st' -> Inv st'.
   Proof.
-    intros H E. pose proof H as (Hdbq & Hz & Hls & ND & Hsubs). pose proof (Hsubs _ _ E) as Hok.
+    intros H E. pose proof H as (Hdbq & Hloc & Hls & ND & Hsubs). destruct (Hsubs _ _ E) as (k0 & Hk0 & Hok).
     unfold leave_step. destruct (hs_phase s) eqn:Ep; try discriminate. intros E'; inversion E'; subst; clear E'.
-    apply inv_set_sub; [assumption|].
-    assert (Hd : SubOk (h_persistent st) (h_committed st) (h_index st) (h_closed_done st) i (s_disconnect s)).
+    apply (inv_set_sub _ _ _ k0); [assumption|assumption|].
+    assert (Hd : SubOk (h_persistent st) (h_committed st) (h_index st) (h_closed_done st) k0 i (s_disconnect s)).
     { apply subok_disconnect; [assumption|]. intros r. rewrite Ep. discriminate. }
     destruct Hd as (A & B & D & F).
     assert (Hdisc : hs_disc (s_disconnect s) = true).
@@ -540,33 +671,62 @@ Section P.
 
   Lemma inv_close st st' : Inv st -> close_step st = Some st' -> Inv st'.
   Proof.
-    intros H. pose proof H as (Hdbq & Hz & Hls & ND & Hsubs).
+    intros H. pose proof H as (Hdbq & Hloc & Hls & ND & Hsubs).
     unfold close_step. destruct (h_close st) as [|[|[|n]]] eqn:Ec; try discriminate.
-    - intros E'; inversion E'; subst; clear E'. unfold Inv, set_close. cbn.
-      repeat (split; [assumption|]). intros j sj Hj. specialize (Hsubs _ _ Hj). unfold h_closed_done in Hsubs. rewrite Ec in Hsubs. exact Hsubs.
+    - intros E'; inversion E'; subst; clear E'. unfold Inv, set_close.
+      cbn [h_persistent h_db h_committed h_seq h_lastseq h_index h_subs h_size h_close h_closed_done].
+      change (dropped _) with (dropped st).
+      repeat (split; [assumption|]). intros j sj Hj. destruct (Hsubs _ _ Hj) as (k0 & Hk0 & Hok). exists k0. split; [assumption|].
+      unfold h_closed_done in Hok. rewrite Ec in Hok. exact Hok.
     - destruct (existsb _ (h_index st)) eqn:Efl; [discriminate|]. intros E'; inversion E'; subst; clear E'.
-      unfold Inv, set_close, set_subs. cbn. repeat (split; [assumption|]).
+      unfold Inv, set_close, set_subs. cbn [h_persistent h_db h_committed h_seq h_lastseq h_index h_subs h_size h_close h_closed_done].
+      change (dropped _) with (dropped st).
+      repeat (split; [assumption|]).
       intros j sj Hj. rewrite (disconnect_all_nth _ ND) in Hj.
       destruct (nth_error (h_subs st) j) as [s|] eqn:Ej; [|discriminate]. inversion Hj; subst; clear Hj.
-      pose proof (Hsubs _ _ Ej) as Hok. unfold h_closed_done in Hok. rewrite Ec in Hok. cbn in Hok.
+      destruct (Hsubs _ _ Ej) as (k0 & Hk0 & Hok). exists k0. split; [assumption|].
+      unfold h_closed_done in Hok. rewrite Ec in Hok. cbn in Hok.
       destruct (mem_nat j (h_index st)) eqn:Em; [|exact Hok].
       apply subok_disconnect; [exact Hok|]. intros r Ep. apply mem_nat_In in Em.
       assert (T : existsb (fun i => match nth_error (h_subs st) i with Some s0 => flushing s0 | None => false end) (h_index st) = true).
       { apply existsb_exists. exists j. split; [assumption|]. rewrite Ej. unfold flushing. rewrite Ep. reflexivity. }
       congruence.
-    - destruct (h_persistent st && _); [discriminate|]. intros E'; inversion E'; subst; clear E'. unfold Inv, set_close. cbn.
-      repeat (split; [assumption|]). intros j sj Hj. specialize (Hsubs _ _ Hj). unfold h_closed_done in Hsubs. rewrite Ec in Hsubs. cbn in Hsubs.
-      apply subok_cd. exact Hsubs.
+    - destruct (h_persistent st && _); [discriminate|]. intros E'; inversion E'; subst; clear E'. unfold Inv, set_close.
+      cbn [h_persistent h_db h_committed h_seq h_lastseq h_index h_subs h_size h_close h_closed_done].
+      change (dropped _) with (dropped st).
+      repeat (split; [assumption|]). intros j sj Hj. destruct (Hsubs _ _ Hj) as (k0 & Hk0 & Hok). exists k0. split; [assumption|].
+      unfold h_closed_done in Hok. rewrite Ec in Hok. cbn in Hok. apply subok_cd. exact Hok.
+  Qed.
+
+  Lemma entries_last_default d l : last (map fst (entries_from (N.of_nat d + 1) l)) 0 = if Nat.eqb (length l) 0 then 0 else N.of_nat d + N.of_nat (length l).
+  Proof.
+    destruct l as [|x l]; [reflexivity|]. cbn [length Nat.eqb].
+    pose proof (entries_from_last (N.of_nat d) (x :: l)) as E. cbn [entries_from map] in E |- *.
+    rewrite (last_default _ _ 0 (N.of_nat d)). exact E.
   Qed.
 
   Lemma inv_crash st : Inv st -> Inv (crash st).
   Proof.
-    intros (Hdbq & Hz & Hls & ND & Hsubs). unfold Inv, crash. cbn.
-    split; [intros Hp; rewrite Hp; apply Hdbq; assumption|]. split; [assumption|].
-    split; [destruct (h_persistent st) eqn:Hp; [|reflexivity]; destruct (Hdbq eq_refl) as [Hdb Hseq]; rewrite Hdb; apply (entries_from_last 0)|].
+    intros (Hdbq & Hloc & Hls & ND & Hsubs). unfold Inv, crash.
+    cbn [h_persistent h_db h_committed h_seq h_lastseq h_index h_subs h_size h_close h_closed_done].
+    assert (Hdr : dropped {| h_persistent := h_persistent st; h_close := 0; h_db := if h_persistent st then h_db st else [];
+                     h_committed := h_committed st; h_seq := if h_persistent st then h_seq st else 0;
+                     h_lastseq := if h_persistent st then last (map fst (h_db st)) 0 else N.of_nat (length (h_committed st));
+                     h_index := []; h_subs := map (fun s => match hs_phase s with PNew | PRefused => s | _ => with_phase s PGone end) (h_subs st);
+                     h_acked := h_acked st; h_events := h_events st; h_gauge := 0; h_subs_total := 0; h_updates_total := 0; h_size := h_size st |} = dropped st).
+    { unfold dropped. cbn [h_committed h_db]. destruct (h_persistent st) eqn:Hp; [reflexivity|]. rewrite (Hloc eq_refl). reflexivity. }
+    rewrite Hdr.
+    split; [intros Hp; rewrite Hp; apply Hdbq; assumption|].
+    split; [intros Hp; rewrite Hp; reflexivity|].
+    split.
+    { destruct (h_persistent st) eqn:Hp; [|reflexivity]. destruct (Hdbq eq_refl) as (Hdb & Hseq & Hne & Hz0).
+      rewrite Hdb, entries_last_default, skipn_length.
+      destruct (h_committed st) as [|x C'] eqn:EC; [reflexivity|].
+      assert (Hlt : (dropped st < length (x :: C'))%nat) by (apply Hne; discriminate).
+      destruct (Nat.eqb_spec (length (x :: C') - dropped st) 0); lia. }
     split; [constructor|].
     intros j sj Hj. rewrite nth_error_map in Hj. destruct (nth_error (h_subs st) j) as [s|] eqn:Ej; [|discriminate].
-    inversion Hj; subst; clear Hj. destruct (Hsubs _ _ Ej) as (A & B & D & F).
+    inversion Hj; subst; clear Hj. destruct (Hsubs _ _ Ej) as (k0 & Hk0 & A & B & D & F). exists k0. split; [assumption|].
     destruct (hs_phase s) eqn:Ep; unfold SubOk, with_phase; sproj; rewrite ?Ep; spl; auto; try (intros []); try (right; intros []).
     destruct F as (F1 & F2 & F3 & F4). repeat split; auto.
   Qed.
@@ -590,19 +750,37 @@ Section P.
     - apply inv_crash. exact H.
   Qed.
 
-  Theorem inv_reachable persistent reqs pubs sched : Inv (w_st (wrun mt cap tracking (winit persistent 0 reqs pubs) sched)).
+  Theorem inv_reachable persistent size reqs pubs sched : Inv (w_st (wrun mt cap tracking (winit persistent size reqs pubs) sched)).
   Proof.
     unfold Hub.wrun.
-    assert (H0 : Inv (w_st (winit persistent 0 reqs pubs))).
-    { unfold Inv. cbn. split; [intros _; split; reflexivity|]. split; [reflexivity|]. split; [reflexivity|]. split; [constructor|].
-      intros i s Hi. rewrite nth_error_map in Hi. destruct (nth_error reqs i); [|discriminate]. inversion Hi; subst.
+    assert (H0 : Inv (w_st (winit persistent size reqs pubs))).
+    { unfold Inv, dropped. cbn. split; [intros _; repeat split; auto; intros X; contradiction|]. split; [reflexivity|]. split; [reflexivity|]. split; [constructor|].
+      intros i s Hi. rewrite nth_error_map in Hi. destruct (nth_error reqs i); [|discriminate]. inversion Hi; subst. exists 0%nat. split; [lia|].
       unfold SubOk, new_sub. sproj. cbn [length N.to_nat]. split; [lia|]. split; [reflexivity|]. split; [apply prefix_nil|]. auto. }
-    revert H0. generalize (winit persistent 0 reqs pubs).
+    revert H0. generalize (winit persistent size reqs pubs).
     induction sched as [|a sched IH]; intros w H0; [exact H0|]. cbn. apply IH. apply inv_wstep. assumption.
   Qed.
 
-  (* the persistent flag never changes *)
-  Lemma persistent_wstep w a : h_persistent (w_st (wstep mt cap tracking w a)) = h_persistent (w_st w).
+  (* the transport kind and the retention size never change *)
+  Definition pz (st : hstate) : bool * N := (h_persistent st, h_size st).
+
+  Lemma publish_pz st u coin st' r : publish st u coin = (st', r) -> pz st' = pz st.
+  Proof.
+    unfold Hub.publish. destruct (h_closed_done st && h_persistent st); [intros E; inversion E; reflexivity|].
+    destruct (Nat.eqb (h_close st) 2); [intros E; inversion E; reflexivity|].
+    destruct (existsb _ (h_index st)); [intros E; inversion E; reflexivity|].
+    intros E. inversion E; subst. unfold pz, set_subs. destruct (h_persistent st) eqn:Hp; cbn; rewrite ?Hp; reflexivity.
+  Qed.
+
+  Lemma add_event_pz st i a c st1 : add_event st i a c = Some st1 -> pz st1 = pz st.
+  Proof.
+    unfold Hub.add_event. destruct (negb tracking); [intros E; inversion E; reflexivity|].
+    destruct (h_closed st); [intros E; inversion E; reflexivity|].
+    destruct (publish st (ev_id i a) c) as [st' []] eqn:Ep; intros E; inversion E; subst; try reflexivity.
+    apply (publish_pz _ _ _ _ _ Ep).
+  Qed.
+
+  Lemma pz_wstep w a : pz (w_st (wstep mt cap tracking w a)) = pz (w_st w).
   Proof.
     destruct a as [t|t coin|i coin|i|i| |]; cbn [Hub.wstep].
     - destruct (nth_error (w_pubs w) t) as [p|]; [|reflexivity].
@@ -610,13 +788,14 @@ Section P.
     - destruct (nth_error (w_pubs w) t) as [p|]; [|reflexivity].
       destruct (pb_todo p) as [|u todo]; [reflexivity|]. destruct (pb_checked p); [|reflexivity].
       destruct (publish (w_st w) u coin) as [st' []] eqn:Ep; cbn [set_pub w_st]; try reflexivity.
-      destruct (publish_frame mt cap _ _ _ _ _ Ep) as (_ & _ & _ & _ & _ & _ & _ & _ & J). exact J.
+      apply (publish_pz _ _ _ _ _ Ep).
     - destruct (nth_error (h_subs (w_st w)) i) as [s|] eqn:E; [|reflexivity].
       destruct (sub_step (w_st w) i s coin) as [st'|] eqn:Es; [|reflexivity]. cbn [w_st].
       unfold Hub.sub_step in Es.
-      assert (G : forall st0 i0 a0 c0 st1 p0, add_event st0 i0 a0 c0 = Some st1 -> h_persistent (set_phase st1 i0 p0) = h_persistent st0).
-      { intros st0 i0 a0 c0 st1 p0 Ea. destruct (add_event_frame mt cap tracking _ _ _ _ _ Ea) as (_ & _ & _ & _ & _ & _ & _ & J).
-        unfold set_phase. destruct (nth_error (h_subs st1) i0); exact J. }
+      assert (G : forall st0 i0 a0 c0 st1 p0, add_event st0 i0 a0 c0 = Some st1 -> pz (set_phase st1 i0 p0) = pz st0).
+      { intros st0 i0 a0 c0 st1 p0 Ea. rewrite <- (add_event_pz _ _ _ _ _ Ea).
+        unfold set_phase. destruct (nth_error (h_subs st1) i0); reflexivity. }
+      remember (pz (w_st w)) as P0 eqn:HP0.
       destruct (hs_phase s).
       all: repeat match type of Es with
            | context [match ?x with _ => _ end] =>
@@ -630,9 +809,9 @@ Section P.
       all: try (match type of Es with
                 | option_map _ (add_event ?st0 ?i0 ?a0 ?c0) = Some _ =>
                     destruct (add_event st0 i0 a0 c0) as [st1|] eqn:Eev; [|discriminate];
-                    cbn in Es; inversion Es; subst; clear Es; try (unfold metrics; cbn [h_persistent]); (etransitivity; [eapply G; eassumption|first [reflexivity|assumption]])
+                    cbn in Es; inversion Es; subst st'; clear Es; rewrite HP0; try (change (pz (metrics ?x _ _)) with (pz x)); eapply G; eassumption
                 end; fail).
-      all: inversion Es; subst; cbn; try reflexivity; try assumption; try congruence.
+      all: inversion Es; subst st'; rewrite HP0; reflexivity.
     - destruct (nth_error (h_subs (w_st w)) i) as [s|] eqn:E; [|reflexivity].
       destruct (recv_step (w_st w) i s) as [st'|] eqn:Es; [|reflexivity]. cbn [w_st].
       unfold recv_step in Es. destruct (hs_phase s); try discriminate.
@@ -648,13 +827,21 @@ Section P.
     - reflexivity.
   Qed.
 
+  Lemma pz_reachable persistent size reqs pubs sched :
+    pz (w_st (wrun mt cap tracking (winit persistent size reqs pubs) sched)) = (persistent, size).
+  Proof.
+    unfold Hub.wrun. assert (H0 : pz (w_st (winit persistent size reqs pubs)) = (persistent, size)) by reflexivity.
+    revert H0. generalize (winit persistent size reqs pubs).
+    induction sched as [|a sched IH]; intros w H0; [exact H0|]. cbn. apply IH. rewrite pz_wstep. exact H0.
+  Qed.
+
   Lemma persistent_reachable persistent size reqs pubs sched :
     h_persistent (w_st (wrun mt cap tracking (winit persistent size reqs pubs) sched)) = persistent.
-  Proof.
-    unfold Hub.wrun. assert (H0 : h_persistent (w_st (winit persistent size reqs pubs)) = persistent) by reflexivity.
-    revert H0. generalize (winit persistent size reqs pubs).
-    induction sched as [|a sched IH]; intros w H0; [exact H0|]. cbn. apply IH. rewrite persistent_wstep. exact H0.
-  Qed.
+  Proof. pose proof (pz_reachable persistent size reqs pubs sched) as H. apply (f_equal fst) in H. exact H. Qed.
+
+  Lemma size_reachable persistent size reqs pubs sched :
+    h_size (w_st (wrun mt cap tracking (winit persistent size reqs pubs) sched)) = size.
+  Proof. pose proof (pz_reachable persistent size reqs pubs sched) as H. apply (f_equal snd) in H. exact H. Qed.
 
   (* ---- FIFO: what the handler has written, then what is buffered, is what was sent ---- *)
   Definition fifo (i : nat) (s : hsub) : Prop := hs_sent s = hs_recvd s ++ hs_out s.
@@ -827,6 +1014,34 @@ Section P.
   (* ---- the statements of C06 / C07 ---- *)
   Notation wrun := (wrun mt cap tracking).
 
+  (* any retention size: k0 entries had been dropped from the stored history when the subscriber's scan read it *)
+  Theorem replay_then_live_retention persistent size reqs pubs sched i s :
+    let st := w_st (wrun (winit persistent size reqs pubs) sched) in
+    nth_error (h_subs st) i = Some s ->
+    exists k0, (k0 <= dropped st)%nat /\
+    let target := ideal_k i (h_committed st) k0 (hs_cut s) (eff_req persistent (hs_req s)) in
+    (N.to_nat (hs_cut s) <= length (h_committed st))%nat /\
+    prefix (hs_sent s) target /\ prefix (hs_recvd s) target /\ hs_sent s = hs_recvd s ++ hs_out s /\
+    (forall left, hs_phase s = PLive left -> hs_disc s = false -> hs_sent s = target).
+  Proof.
+    intros st E. destruct (inv_reachable persistent size reqs pubs sched) as (_ & _ & _ & _ & Hs).
+    destruct (Hs _ _ E) as (k0 & Hk0 & A & B & D & F). fold st in D, F, Hk0. exists k0. split; [assumption|]. intros target.
+    unfold target. rewrite <- (persistent_reachable persistent size reqs pubs sched). fold st.
+    pose proof (fifo_reachable persistent size reqs pubs sched _ _ E) as Hf. unfold fifo in Hf.
+    split; [assumption|]. split; [assumption|]. split; [eapply prefix_trans; [|exact D]; rewrite Hf; apply prefix_app|].
+    split; [assumption|]. intros left Ep Hd. rewrite Ep in F. destruct (F Hd) as (_ & _ & G). exact G.
+  Qed.
+
+  Lemma dropped_zero persistent reqs pubs sched :
+    persistent = true -> dropped (w_st (wrun (winit persistent 0 reqs pubs) sched)) = 0%nat.
+  Proof.
+    intros ->. destruct (inv_reachable true 0 reqs pubs sched) as (A & _).
+    destruct (A (persistent_reachable true 0 reqs pubs sched)) as (_ & _ & _ & Z). apply Z. apply (size_reachable true 0 reqs pubs sched).
+  Qed.
+
+  Lemma ideal_k_noreq i C k0 cut : ideal_k i C k0 cut NoReq = ideal i C cut NoReq.
+  Proof. reflexivity. Qed.
+
   Theorem replay_then_live persistent reqs pubs sched i s :
     let st := w_st (wrun (winit persistent 0 reqs pubs) sched) in
     nth_error (h_subs st) i = Some s ->
@@ -835,17 +1050,31 @@ Section P.
     prefix (hs_sent s) target /\ prefix (hs_recvd s) target /\ hs_sent s = hs_recvd s ++ hs_out s /\
     (forall left, hs_phase s = PLive left -> hs_disc s = false -> hs_sent s = target).
   Proof.
-    intros st E target. destruct (inv_reachable persistent reqs pubs sched) as (_ & _ & _ & _ & Hs).
-    destruct (Hs _ _ E) as (A & B & D & F). fold st in D, F. unfold target. rewrite <- (persistent_reachable persistent 0 reqs pubs sched). fold st.
-    pose proof (fifo_reachable persistent 0 reqs pubs sched _ _ E) as Hf. unfold fifo in Hf.
-    split; [assumption|]. split; [assumption|]. split; [eapply prefix_trans; [|exact D]; rewrite Hf; apply prefix_app|].
-    split; [assumption|]. intros left Ep Hd. rewrite Ep in F. destruct (F Hd) as (_ & _ & G). exact G.
+    intros st E target. destruct (replay_then_live_retention persistent 0 reqs pubs sched i s E) as (k0 & Hk0 & H). fold st in Hk0, H.
+    assert (Et : ideal_k i (h_committed st) k0 (hs_cut s) (eff_req persistent (hs_req s)) = target).
+    { unfold target. destruct persistent.
+      - pose proof (dropped_zero true reqs pubs sched eq_refl) as Z. fold st in Z. assert (k0 = 0%nat) by lia. subst k0. apply ideal_k_0.
+      - cbn [eff_req]. apply ideal_k_noreq. }
+    cbn zeta in H. rewrite Et in H. exact H.
+  Qed.
+
+  (* with Bolt the stored history is the retained suffix of the commit order, entry k at sequence number k *)
+  Theorem stored_order_is_commit_order_retention size reqs pubs sched :
+    let st := w_st (wrun (winit true size reqs pubs) sched) in
+    h_db st = entries_from (N.of_nat (dropped st) + 1) (skipn (dropped st) (h_committed st)) /\
+    h_seq st = N.of_nat (length (h_committed st)) /\ (h_committed st <> [] -> (dropped st < length (h_committed st))%nat).
+  Proof.
+    intros st. destruct (inv_reachable true size reqs pubs sched) as (A & _).
+    destruct (A (persistent_reachable true size reqs pubs sched)) as (X & Y & Z & _). auto.
   Qed.
 
   Theorem stored_order_is_commit_order reqs pubs sched :
     let st := w_st (wrun (winit true 0 reqs pubs) sched) in
     h_db st = entries_from 1 (h_committed st) /\ h_seq st = N.of_nat (length (h_committed st)).
-  Proof. intros st. destruct (inv_reachable true reqs pubs sched) as (A & _). apply A. apply (persistent_reachable true 0 reqs pubs sched). Qed.
+  Proof.
+    intros st. destruct (stored_order_is_commit_order_retention 0 reqs pubs sched) as (X & Y & _). fold st in X, Y.
+    pose proof (dropped_zero true reqs pubs sched eq_refl) as Z. fold st in Z. rewrite Z in X. cbn [skipn N.of_nat] in X. auto.
+  Qed.
 
   Lemma grows_run w sched : I09 (w_st w) -> grows (w_st w) (w_st (wrun w sched)).
   Proof.
@@ -901,5 +1130,55 @@ Section P.
                 filter (mt i) (skipn (N.to_nat (hs_cut s)) (h_committed st)).
   Proof.
     intros st E Ep Hd. destruct (replay_then_live persistent reqs pubs sched i s E) as (_ & _ & _ & _ & G). exact (G left Ep Hd).
+  Qed.
+  (* ---- bounded retention: the ideal sequence is still the matching part of the commit order from one point on ---- *)
+  Lemma hseg_app C k0 cut : (k0 <= N.to_nat cut <= length C)%nat -> hseg C k0 cut ++ skipn (N.to_nat cut) C = skipn k0 C.
+  Proof.
+    intros H. unfold hseg. replace (skipn (N.to_nat cut) C) with (skipn (N.to_nat cut - k0) (skipn k0 C)).
+    - apply firstn_skipn.
+    - rewrite skipn_skipn'. f_equal. lia.
+  Qed.
+
+  Lemma ideal_k_is_suffix i C k0 cut rq :
+    (N.to_nat cut <= length C)%nat ->
+    exists k, ideal_k i C k0 cut rq = filter (mt i) (skipn k C) /\ (k <= N.to_nat cut)%nat /\
+      ((k0 <= N.to_nat cut)%nat -> (k0 <= k)%nat) /\
+      (rq = Earliest -> (k0 <= N.to_nat cut)%nat -> k = k0) /\ (rq = NoReq -> k = N.to_nat cut) /\
+      (forall r, rq = ReqId r ->
+         (In r (hseg C k0 cut) -> skipn k C = after r (skipn k0 C)) /\ (~ In r (hseg C k0 cut) -> k = N.to_nat cut)).
+  Proof.
+    intros Hc. set (n := N.to_nat cut) in *.
+    destruct (le_lt_dec k0 n) as [Hk|Hk].
+    - unfold ideal_k, hist_part_k, live_part. fold n. destruct rq as [| |r].
+      + exists n. cbn [filter app]. repeat split; try discriminate; auto; lia.
+      + exists k0. rewrite <- filter_app, hseg_app by (fold n; lia). repeat split; try discriminate; auto; lia.
+      + destruct (in_dec N.eq_dec r (hseg C k0 cut)) as [Hin|Hnin].
+        * destruct (after_is_skipn _ _ Hin) as (k & Hkk & E).
+          assert (Hl : length (hseg C k0 cut) = (n - k0)%nat) by (unfold hseg; fold n; rewrite firstn_length, skipn_length; lia).
+          rewrite Hl in Hkk.
+          exists (k0 + k)%nat. rewrite <- filter_app, E.
+          assert (E2 : skipn k (hseg C k0 cut) ++ skipn n C = skipn (k0 + k) C).
+          { unfold hseg. fold n. rewrite <- (skipn_skipn' k k0 C).
+            replace (skipn n C) with (skipn (n - k0) (skipn k0 C)) by (rewrite skipn_skipn'; f_equal; lia).
+            apply skipn_firstn_app. rewrite skipn_length. lia. }
+          rewrite E2. split; [reflexivity|]. split; [lia|]. split; [lia|]. split; [discriminate|]. split; [discriminate|].
+          intros r' Er. inversion Er; subst r'. split; [|contradiction]. intros _.
+          rewrite <- (hseg_app C k0 cut) by (fold n; lia). rewrite after_app_in by assumption. rewrite E. symmetry. exact E2.
+        * exists n. rewrite (after_notin _ _ Hnin). cbn [filter app]. split; [reflexivity|]. split; [lia|]. split; [lia|].
+          split; [discriminate|]. split; [discriminate|]. intros r' Er. inversion Er; subst r'. split; [contradiction|auto].
+    - assert (Hs : hseg C k0 cut = []) by (unfold hseg; fold n; replace (n - k0)%nat with 0%nat by lia; reflexivity).
+      exists n. unfold ideal_k, hist_part_k, live_part. fold n. rewrite Hs. split; [destruct rq; reflexivity|]. split; [lia|]. split; [lia|].
+      split; [intros; lia|]. split; [reflexivity|]. intros r Er. split; [intros []|reflexivity].
+  Qed.
+
+  Theorem exactly_once_retention persistent size reqs pubs sched i s :
+    let st := w_st (wrun (winit persistent size reqs pubs) sched) in
+    nth_error (h_subs st) i = Some s -> NoDup (h_committed st) -> NoDup (hs_sent s) /\ NoDup (hs_recvd s).
+  Proof.
+    intros st E ND. destruct (replay_then_live_retention persistent size reqs pubs sched i s E) as (k0 & _ & Hc & P1 & P2 & _).
+    fold st in Hc, P1, P2.
+    destruct (ideal_k_is_suffix i (h_committed st) k0 (hs_cut s) (eff_req persistent (hs_req s)) Hc) as (k & Ek & _).
+    rewrite Ek in P1, P2.
+    split; eapply NoDup_prefix; try eassumption; apply NoDup_filter, NoDup_skipn; assumption.
   Qed.
 End P.
